@@ -209,7 +209,8 @@ impl C29 {
         let n = tier.pick(12, 60);
         // programs declaring their own host functions are skipped: the harness finds host declarations
         // with a line-based scan (a comment in front of `#host` would change the harness, not the program)
-        (0..c.len()).filter(|i| c[*i].text.len() >= 20 && !c[*i].text.contains("#host")).take(n).collect()
+        // tiny/alias-import is rejected as it stands (`Can't solve type`: it exists for the text neighbourhoods of C04 / C34)
+        (0..c.len()).filter(|i| c[*i].text.len() >= 20 && !c[*i].text.contains("#host") && c[*i].name != "tiny/alias-import").take(n).collect()
     }
     fn n_gen_units(tier: Tier) -> usize {
         Self::gen_programs(tier).len().div_ceil(PROGS_PER_UNIT)
@@ -373,7 +374,9 @@ impl Prop for C29 {
                 continue;
             }
             for c in &menu {
-                let text = format!("{}{} {}", &f.text[..t.lo], c, &f.text[t.lo..]);
+                // a comment glued to a preceding `/` or `*` would not be a comment (`//**/`, `*/`): keep one blank between
+                let sep = if f.text[..t.lo].ends_with(['/', '*']) { " " } else { "" };
+                let text = format!("{}{sep}{} {}", &f.text[..t.lo], c, &f.text[t.lo..]);
                 one(out, format!("{c} before token #{ti} at byte {}", t.lo), text, &mut base);
             }
         }
